@@ -361,7 +361,7 @@ func (g *gen) genProbe(w *world, s *snap, u int) Op {
 	}
 	g.tag = "ol:liquidate"
 	k2 := g.anyUser()
-	if k2 == u {
+	if k2 == u && r.Chance(2, 3) { // sometimes the borrower liquidates himself
 		k2 = (u + 1) % nU
 	}
 	return Op{Kind: "liquidate", A: k2, B: u}
@@ -400,6 +400,12 @@ func (g *gen) scriptOverLimit() (avoid [][2]int) {
 	g.cfg.Markets[z].LTV = "0.0"
 	g.cfg.Markets[b].HasMax = false
 	g.cfg.MinBorrow = pick(r, "0.0", "10.0", "1.0")
+	switch r.Intn(6) { // the keeper's share of the seized collateral: everything, nothing
+	case 0:
+		g.cfg.Markets[[]int{c1, z}[r.Intn(2)]].Keeper = "1.0"
+	case 1:
+		g.cfg.Markets[[]int{c1, z}[r.Intn(2)]].Keeper = "0.0"
+	}
 	cause := r.Pick(30, 15, 35, 20) // collateral price down, debt price up, interest, loan-to-value lowered
 	if cause == 2 {
 		g.cfg.Markets[b].Base = pick(r, "0.5", "1.0", "0.3")
@@ -505,14 +511,21 @@ func (g *gen) scriptExactSynced() {
 	}
 	g.cfg.MinBorrow = pick(r, "0.0", "0.0", "10.0")
 	x := int64(400 + r.Intn(4000))
-	off := func() int64 { return int64(r.Intn(3) - 1) }
+	used := map[string]bool{}
+	off := func(kind string) int64 { // the first withdrawal and the first repayment are exact
+		if !used[kind] {
+			used[kind] = true
+			return 0
+		}
+		return int64(r.Intn(3) - 1)
+	}
 	syn := func(side, u int, kind string, sender int) func(w *world, s *snap) (Op, bool) {
 		return func(w *world, s *snap) (Op, bool) {
 			cur := syncedAmt(s, side, u, a)
 			if cur.Sign() == 0 {
 				return Op{}, false
 			}
-			o := off()
+			o := off(kind)
 			op := Op{Kind: kind, A: sender, B: u, Coins: one(a, new(big.Int).Add(cur, big.NewInt(o)))}
 			if kind == "withdraw" {
 				op.B = 0
